@@ -9,6 +9,7 @@ import difflib
 
 from ..diff_format import SequenceDiffBuilder, MappingDiffBuilder, validate_diff
 from ..diff_utils import count_consumed_symbols
+from ..utils import json_equal
 
 from .config import DiffConfig
 from .sequences import diff_strings_linewise, diff_sequence
@@ -18,7 +19,7 @@ __all__ = ["diff"]
 
 
 def default_predicates():
-    return defaultdict(lambda: (operator.__eq__,))
+    return defaultdict(lambda: (json_equal,))
 
 
 def default_differs():
@@ -228,12 +229,12 @@ def diff_dicts(a, b, path="", config=None):
             # equal to the plain default may merely have been cached when a list
             # was looked up at the same starred path earlier (lookups insert).
             predicates = config.predicates.get(path or '/')
-            if predicates is not None and list(predicates) != [operator.__eq__]:
+            if predicates is not None and list(predicates) != [json_equal]:
                 # Could also this a warning, but I think it shouldn't be done
                 raise RuntimeError(
                     "Found predicate(s) for path {} pointing to dict entry.".format(
                         path or '/'))
-            if avalue != bvalue:
+            if not json_equal(avalue, bvalue):
                 di.replace(key, bvalue)
 
     for key in sorted(bkeys - akeys):
